@@ -42,7 +42,7 @@ ASSUMPTIONS = [
     "only be the controller's doing",
     "programs with entanglement blocks are well-formed (ids free, every request awaited); random tails may fault",
 ]
-PROBES = ["duplicate-registration", "keep-response-deferred-busy", "stop-during-foreign-subroutine", "init-during-foreign-subroutine", "reinit-after-stop", "keep-mapped",
+PROBES = ["stop-suspended-in-clear", "qfree-suspended-in-clear", "duplicate-registration", "keep-response-deferred-busy", "stop-during-foreign-subroutine", "init-during-foreign-subroutine", "reinit-after-stop", "keep-mapped",
           "keep-mapped-while-other-app-holds-qubits", "program-fault-in-one-app", "three-apps", "qfree", "qalloc"]
 
 BIAS = [3, 1, 1, 3, 4, 2, 1, 1, 2, 1, 2, 2, 6, 5, 2]
@@ -85,6 +85,7 @@ def run(ch: Choices, opts: Dict[str, Any]) -> Dict[str, Any]:
     link = FakeLink(ch, sched, trace, legacy=ch.flag(1, 3, "legacy"),
                     max_gen_delay=0 if calm else 400, max_deliver_delay=0 if calm else 400)
     node = ControllerNode("n0", 0, qm, lambda: sched.now, flavour="vanilla", link=link)
+    node.env.slow_clear = (not calm) and ch.flag(1, 2, "slow-clear")
     ex = node.ex
     faults: Dict[str, int] = {}
     probes: Dict[str, int] = {}
@@ -103,7 +104,7 @@ def run(ch: Choices, opts: Dict[str, Any]) -> Dict[str, Any]:
     if n_apps == 3:
         bump(probes, "three-apps")
     GHOST = 7
-    state = {"in_flight": set(), "acting": None, "done": 0}
+    state = {"in_flight": set(), "acting": None, "done": 0, "stopping": {}}
     wl = []
 
     apps = []
@@ -146,7 +147,10 @@ def run(ch: Choices, opts: Dict[str, Any]) -> Dict[str, Any]:
                                     {"physical": p, "a": seen[p], "b": (aid, v), "trace": _tail(trace)})
                 seen[p] = (aid, v)
         used = set(ex._used_physical_qubit_addresses)
-        if used != set(seen):
+        # an application that is being stopped right now (its stop is suspended in a slow clear) has lost its map
+        # already while its not-yet-cleared qubits are still marked: those are not judged until the stop has finished
+        limbo = set().union(*state["stopping"].values()) if state["stopping"] else set()
+        if used - limbo != set(seen) - limbo:
             kind = "leaked" if used - set(seen) else "unmarked"
             raise Violation("I2", f"I2|used-set-{kind}|{where}",
                             {"used": sorted(used), "mapped": sorted(seen), "trace": _tail(trace)})
@@ -257,6 +261,9 @@ def run(ch: Choices, opts: Dict[str, Any]) -> Dict[str, Any]:
                         break
                     check_isolation(before, aid, "instr")
                     check_global("instr")
+                    if isinstance(y, tuple) and y and y[0] == "clear":
+                        bump(probes, "qfree-suspended-in-clear")
+                        bump(faults, "instruction-suspended-in-slow-clear")
                     if isinstance(y, tuple) and y and y[0] == "instr":
                         op = prog[y[2]][0] if y[2] < len(prog) else "?"
                         trace.add("i", aid, k, y[2], op)
@@ -296,8 +303,20 @@ def run(ch: Choices, opts: Dict[str, Any]) -> Dict[str, Any]:
             if state["in_flight"] - {aid}:
                 bump(probes, "stop-during-foreign-subroutine")
                 bump(faults, "stop-while-other-app-mid-subroutine")
-            for _ in node.stop_app_gen(aid):
-                pass
+            gstop = node.stop_app_gen(aid)
+            state["stopping"][aid] = {p for p in um if p is not None}
+            while True:
+                # (with a slow clear the stop is suspended once per qubit: the other applications run meanwhile)
+                before = snap_all()
+                try:
+                    ys = next(gstop)
+                except StopIteration:
+                    break
+                check_isolation(before, aid, "stop")
+                if node.env.slow_clear:
+                    bump(probes, "stop-suspended-in-clear")
+                    yield ys
+            state["stopping"].pop(aid, None)
             trace.add("stop", aid)
             check_isolation(before, aid, "stop")
             check_global("stop")
@@ -306,7 +325,11 @@ def run(ch: Choices, opts: Dict[str, Any]) -> Dict[str, Any]:
                     if aid in d]
             if left:
                 raise Violation("I4", "I4|state-left-after-stop|" + ",".join(left), {"app": aid, "trace": _tail(trace)})
-            held = [p for p in um if p is not None and p in qm.live]
+            # (a qubit released early in a suspended stop may already belong to another application again)
+            others = {p2 for a2, um2 in ex._qubit_unit_modules.items() for p2 in um2 if p2 is not None}
+            for a2, lim in state["stopping"].items():
+                others |= lim          # ... or to one that is itself being stopped right now
+            held = [p for p in um if p is not None and p in qm.live and p not in others]
             if held:
                 raise Violation("I4", "I4|physical-qubits-not-released", {"app": aid, "held": held, "trace": _tail(trace)})
             yield None
